@@ -1029,3 +1029,79 @@ def rt_c17(tier="quick", first_only=False, count=None):
     if count is not None:
         count.append(n)
     return fails
+
+
+# --------------------------------------------------------------------------------------
+# C05: named families against scipy.stats (float64)
+def rt_c05(tier="quick", first_only=False, count=None):
+    import equinox as eqx
+    import scipy.stats as st
+    import flowjax.distributions as Dm
+
+    fails, n = [], 0
+    loc = np.array([[0.3, -1.2, 2.0]])
+    scale = np.array([[1.7], [0.4]])  # broadcasts to (2, 3)
+    df = np.array([2.5, 7.0, 30.0])
+    bloc, bscale = np.broadcast_arrays(loc, scale)
+    pts_real = [np.zeros((2, 3)), bloc + 0.7 * bscale, bloc - 3.1 * bscale, np.full((2, 3), 1e3), np.full((2, 3), -47.5)]
+    fams = [
+        ("Normal", lambda: Dm.Normal(loc, scale), lambda x: st.norm(loc, scale).logpdf(x), pts_real, dict(loc=bloc, scale=bscale)),
+        ("Cauchy", lambda: Dm.Cauchy(loc, scale), lambda x: st.cauchy(loc, scale).logpdf(x), pts_real, dict(loc=bloc, scale=bscale)),
+        ("Laplace", lambda: Dm.Laplace(loc, scale), lambda x: -np.abs((x - loc) / scale) - np.log(2 * scale), pts_real, dict(loc=bloc, scale=bscale)),
+        ("Logistic", lambda: Dm.Logistic(loc, scale), lambda x: st.logistic(loc, scale).logpdf(x), pts_real[:3], dict(loc=bloc, scale=bscale)),
+        ("Gumbel", lambda: Dm.Gumbel(loc, scale), lambda x: st.gumbel_r(loc, scale).logpdf(x), pts_real[:3], dict(loc=bloc, scale=bscale)),
+        ("StudentT", lambda: Dm.StudentT(df, loc, scale), lambda x: st.t(df, loc, scale).logpdf(x), pts_real, dict(loc=bloc, scale=bscale, df=np.broadcast_to(df, (2, 3)))),
+        ("LogNormal", lambda: Dm.LogNormal(loc, scale), lambda x: st.lognorm(s=bscale, scale=np.exp(bloc)).logpdf(x), [np.full((2, 3), 0.5), np.exp(bloc), np.full((2, 3), 40.0), np.full((2, 3), -1.0), np.zeros((2, 3))], {}),
+        ("Uniform", lambda: Dm.Uniform(loc, loc + scale), lambda x: st.uniform(bloc, bscale).logpdf(x), [bloc + 0.5 * bscale, bloc + 1e-9, bloc - 0.25, bloc + bscale + 3.0, np.full((2, 3), 10.0)], dict(minval=bloc, maxval=bloc + bscale)),
+        ("Exponential", lambda: Dm.Exponential(np.array([0.5, 2.0, 10.0])), lambda x: st.expon(scale=1 / np.array([0.5, 2.0, 10.0])).logpdf(x), [np.array([0.3, 0.3, 0.3]), np.array([5.0, 1e-6, 2.0]), np.array([-1.0, 1.0, 1.0]), np.array([-0.5, -2.0, -1e-3])], dict(rate=np.array([0.5, 2.0, 10.0]))),
+    ]
+    for name, mk, ref, pts, acc in fams:
+        d = mk()
+        for k_, want in acc.items():
+            n += 1
+            got = np.asarray(getattr(d, k_))
+            if got.shape != np.shape(want) or not np.allclose(got, want, rtol=1e-9, atol=1e-12):
+                fails.append(dict(what=f"{name}.{k_} accessor returns {got.tolist()} for constructor value {np.asarray(want).tolist()}", case=dict(family=name, accessor=k_)))
+        for x in pts:
+            n += 1
+            got = np.asarray(d.log_prob(x))
+            want_el = ref(x)
+            want = np.sum(want_el, axis=tuple(range(want_el.ndim - len(d.shape), want_el.ndim))) if len(d.shape) else want_el
+            bad = None
+            if np.any(np.isnan(got)):
+                bad = "returns NaN"
+            else:
+                for g, w in zip(np.ravel(got), np.ravel(want)):
+                    if np.isneginf(w):
+                        if not np.isneginf(g):
+                            bad = f"outside the support the log-density must be -inf, got {g!r}"
+                    elif not _close(g, w, tol=1e-9):
+                        bad = f"log_prob = {g!r}, scipy.stats gives {w!r} (summed over the event shape {d.shape})"
+            if bad:
+                fails.append(dict(what=f"{name}(params broadcast to {d.shape}).log_prob at x[0]={np.ravel(x)[:3].tolist()}: {bad}", case=dict(family=name)))
+                if first_only:
+                    return fails
+    # multivariate normal + mixture
+    n += 1
+    cov = np.array([[2.0, 0.3, 0.0], [0.3, 1.0, -0.2], [0.0, -0.2, 0.5]])
+    mu = np.array([0.1, -0.5, 2.0])
+    mvn = Dm.MultivariateNormal(mu, cov)
+    x = np.array([0.4, 0.2, 1.0])
+    if not _close(mvn.log_prob(x), st.multivariate_normal(mu, cov).logpdf(x), tol=1e-9) or not np.allclose(np.asarray(mvn.covariance), cov, atol=1e-9) or not np.allclose(np.asarray(mvn.loc), mu):
+        fails.append(dict(what=f"MultivariateNormal: log_prob {float(mvn.log_prob(x))!r} vs scipy {st.multivariate_normal(mu, cov).logpdf(x)!r} or accessors wrong", case=dict(family="MultivariateNormal")))
+    for w in (np.array([1.0, 3.0]), np.array([10.0, 30.0])):
+        n += 1
+        comp = eqx.filter_vmap(Dm.Normal)(jnp.array([-1.0, 2.0]), jnp.array([0.5, 1.5]))
+        mix = Dm.VmapMixture(comp, w)
+        for xx in (0.3, -4.0, 7.0):
+            want = np.log(0.25 * st.norm(-1, 0.5).pdf(xx) + 0.75 * st.norm(2, 1.5).pdf(xx))
+            if not _close(mix.log_prob(xx), want, tol=1e-9):
+                fails.append(dict(what=f"VmapMixture(weights {w.tolist()}).log_prob({xx}) = {float(mix.log_prob(xx))!r}; weight-normalised sum of component densities gives {want!r}", case=dict(family="VmapMixture")))
+    umix = Dm.VmapMixture(eqx.filter_vmap(Dm.Uniform)(jnp.array([0.0, 2.0]), jnp.array([1.0, 3.0])), np.array([1.0, 1.0]))
+    n += 1
+    v = float(umix.log_prob(5.0))
+    if not np.isneginf(v):
+        fails.append(dict(what=f"mixture of Uniforms outside every component's support: log_prob = {v!r}, must be -inf", case=dict(family="VmapMixture(Uniform)")))
+    if count is not None:
+        count.append(n)
+    return fails
